@@ -145,6 +145,15 @@ func tsTerm(t *timestamppb.Timestamp) string {
 	return "(" + hx.Z(t.GetSeconds()) + ", " + hx.Z(int64(t.GetNanos())) + ")"
 }
 
+// numericEdges: numeric-looking inputs for every parser that may take a number.
+var numericEdges = []string{
+	"0", "1", "-1", "+1", "999", "-999", "1000", "-1000", "1001", "-1001", "1500", "-1500", "-0", "007", "-007", "00",
+	"2147483647", "2147483648", "-2147483648", "-2147483649", "4294967295", "4294967296",
+	"9223372036854775807", "9223372036854775808", "-9223372036854775808", "-9223372036854775809",
+	"1e3", "-1e3", "1.5", "-1.5", ".5", "1.", "0x10", "1_000", " 1", "1 ", "1577934245", "1577934245123", "-62135596800", "-62135596801", "-62135596800000",
+	"253402300799", "253402300800", "253402300799999", "253402300800000", "-1577934245123", "1577934245123456789",
+}
+
 func c38(c *hx.Ctx) {
 	c.Type = "c38_case"
 	c.Agree = "c38_agree"
@@ -245,7 +254,7 @@ func c38(c *hx.Ctx) {
 		case 0:
 			s = string(c.RandBytes(c.Rng.Intn(8)))
 		default:
-			al := []string{"a", "|", "b", " ", "udp", "1.2.3.4:5"}
+			al := []string{"a", "|", "b", " ", "udp", "1.2.3.4:5", ":0", ":65535", ":65536", ":-1", ":+1", ":007"}
 			for j, n := 0, c.Rng.Intn(6); j < n; j++ {
 				if c.Rng.Intn(5) == 0 {
 					s += junk(c) // boundary code points and ill-formed bytes around the delimiter
@@ -409,9 +418,15 @@ func c38(c *hx.Ctx) {
 	}
 	// ---- durations ----
 	durs := []string{"", "0", "0s", "1s", "1h2m3s", "-5ms", "1.5h", "1ns", "abc", "1", "1d", " 1s", "1s ", "9223372036854775807ns", "9223372036854775808ns", "2562047h47m16.854775807s", ".5s", "1e3s", "+3m", "1µs", "1us"}
-	for i := 0; i < unit; i++ {
+	var durSweep []string
+	for _, n := range numericEdges {
+		durSweep = append(durSweep, n, n+"ns", n+"ms", n+"s", n+"h")
+	}
+	for i := 0; i < len(durSweep)+unit; i++ {
 		s := durs[c.Rng.Intn(len(durs))]
-		if c.Rng.Intn(4) == 0 {
+		if i < len(durSweep) {
+			s = durSweep[i]
+		} else if c.Rng.Intn(4) == 0 {
 			s = time.Duration(c.Rng.Int63() - c.Rng.Int63()).String()
 			if c.Rng.Intn(3) == 0 && len(s) > 0 {
 				s = s[:c.Rng.Intn(len(s))]
@@ -456,9 +471,16 @@ func c38(c *hx.Ctx) {
 	}
 	// ---- timestamps ----
 	tss := []string{"", "2020-01-02T03:04:05Z", "2020-01-02T03:04:05.123456789Z", "2020-01-02T03:04:05.5+02:00", "\"2021-06-01T00:00:00.000000001Z\"", "0001-01-01T00:00:00Z", "9999-12-31T23:59:59.999999999Z", "10000-01-01T00:00:00Z", "2020-13-01T00:00:00Z", "null", "{}", "\"", "2020-01-02", "1970-01-01T00:00:00.1Z", "1969-12-31T23:59:59.9Z", "\"\"", "abc"}
-	for i := 0; i < unit; i++ {
+	tsSweep := append(append([]string{}, numericEdges...),
+		"0001-01-01T00:00:00Z", "0001-01-01T00:00:00.000000001Z", "0000-12-31T23:59:59Z", "1969-12-31T23:59:59.999999999Z", "1969-12-31T23:59:58.5Z",
+		"1970-01-01T00:00:00Z", "1970-01-01T00:00:00.000000001Z", "9999-12-31T23:59:59Z", "9999-12-31T23:59:59.999999999Z", "10000-01-01T00:00:00Z",
+		"1960-06-01T12:00:00.25Z", "1969-12-31T23:59:59.001-01:00", "\"-1\"", "\"1500\"")
+	for i := 0; i < len(tsSweep)+unit; i++ {
 		s := tss[c.Rng.Intn(len(tss))]
-		switch c.Rng.Intn(5) {
+		if i < len(tsSweep) {
+			s = tsSweep[i]
+		}
+		switch map[bool]int{true: -1, false: c.Rng.Intn(5)}[i < len(tsSweep)] {
 		case 0:
 			s = time.Unix(c.Rng.Int63n(4e9)-1e9, c.Rng.Int63n(1e9)).UTC().Format(time.RFC3339Nano)
 		case 1:
@@ -494,16 +516,30 @@ func c38(c *hx.Ctx) {
 			}
 		default:
 			obs = "(Ok (Some " + tsTerm(t) + "))"
-			var f string
-			var t2 *timestamppb.Timestamp
-			var err2 error
-			pn2, _ := hx.Catch(func() {
-				f = confparse.MarshalTimestamp(t)
-				t2, err2 = confparse.ParseTimestamp(f)
-			})
-			desc["formatted"] = f
-			if pn2 || err2 != nil || t2 == nil || t2.GetSeconds() != t.GetSeconds() || t2.GetNanos() != t.GetNanos() {
-				c.Failf("timestamp-roundtrip", desc, "parse(format(parse s)) = %v (err %v panic %v), parse s = %v", t2, err2, pn2, t)
+			const minSec, maxSec = -62135596800, 253402300799 // 0001-01-01T00:00:00Z .. 9999-12-31T23:59:59Z
+			switch {
+			case t.GetNanos() < 0 || t.GetNanos() >= 1e9:
+				c.Failf("timestamp-invalid-nanos", desc, "ParseTimestamp returned nanos=%d (seconds=%d): not a normalised timestamp", t.GetNanos(), t.GetSeconds())
+			case t.GetSeconds() < minSec || t.GetSeconds() > maxSec:
+				// outside the range RFC 3339 / Timestamp can express: formatting is not invertible there
+				f := confparse.MarshalTimestamp(t)
+				t2, err2 := confparse.ParseTimestamp(f)
+				c.Class("timestamp-out-of-range-accepted")
+				if err2 != nil || t2 == nil || t2.GetSeconds() != t.GetSeconds() || t2.GetNanos() != t.GetNanos() {
+					c.Failf("timestamp-out-of-range-roundtrip", desc, "ParseTimestamp accepted seconds=%d, outside 0001-01-01..9999-12-31 (CheckValid: %v); it formats as %q which parses back as %v (err %v), not the same value", t.GetSeconds(), t.CheckValid(), f, t2, err2)
+				}
+			default:
+				var f string
+				var t2 *timestamppb.Timestamp
+				var err2 error
+				pn2, _ := hx.Catch(func() {
+					f = confparse.MarshalTimestamp(t)
+					t2, err2 = confparse.ParseTimestamp(f)
+				})
+				desc["formatted"] = f
+				if pn2 || err2 != nil || t2 == nil || t2.GetSeconds() != t.GetSeconds() || t2.GetNanos() != t.GetNanos() {
+					c.Failf("timestamp-roundtrip", desc, "parse(format(parse s)) = %v (err %v panic %v), parse s = %v", t2, err2, pn2, t)
+				}
 			}
 			c.Nontrivial("ts" + s)
 		}
